@@ -54,6 +54,8 @@ def call_prim(ip, name, args, kwargs):
             return ZBool(z3.Function("PartApplies", V.Val, V.Val, V.B)(part, node))
         from .sym import LList
         return LList(None, z3.Function(name, V.Val, V.Val, V.VS)(part, node))
+    if name == "PathSel":
+        return Z(z3.Function("PathSel", V.Val, V.Val, V.Val)(ip.to_z(args[0]), ip.to_z(args[1])))
     if name in ("fst", "snd"):
         # component of a pair (a list or a tuple); specification-level, so no case split on the kind of the value
         x = args[0]
